@@ -762,7 +762,7 @@ impl Scenario for Buyback {
          1-3 exchange windows; per window: GT mints, exchange requests (partial/full/zero/over-balance), deposits split by the GT \
          factor, factor updates incl. exactly 100% and >100%, window crossing, confirm_gt_buyback with fresh prices, claims in a \
          shuffled order with repeats; odd runs add tx loss/dup/delay, forged signers, look-alike targets, CPI failures, dust into \
-         bank vaults, clock regression / multi-window jumps, cluster restart, a claimant that never claims. A case is distinct by \
+         bank vaults, clock stalls / multi-window jumps, cluster restart, a claimant that never claims. Twin runs (all runs under C19, 1/16 otherwise) add administrative treasury instructions and re-run every landed privileged treasury transaction on forks of its pre-state with a role-less signer, a signer holding every other role, and another user. A case is distinct by \
          (tokens, claimants, reservation kind, claim position, share bucket) fingerprints and outcome trigrams."
             .into()
     }
